@@ -284,7 +284,11 @@ func c02Spaces(c *fw.Ctx) {
 			continue
 		}
 		vi := 0
+		perType := 0
 		enum.Vectors(s, 1, 0, func(vals []wire.Val, devs int) {
+			if perType >= 24 { // the structurally different values come first in every alphabet
+				return
+			}
 			m := &wire.Msg{ID: 0xbeef, Flags: 0x8180, Q: []wire.Question{{Name: enum.Names[0], Type: t, Class: 1}}}
 			rr := wire.RR{Name: enum.Names[3], Type: t, Class: 1, TTL: 60, Vals: vals}
 			sec := 0
@@ -295,6 +299,7 @@ func c02Spaces(c *fw.Ctx) {
 			m.Sec[1] = []wire.RR{mkRR(2, enum.Names[0], enum.Names[2])}
 			if b, err := wire.EncodeMsg(m); err == nil && len(b) < 260 {
 				seeds = append(seeds, seed{fmt.Sprintf("%s/%d/plain", s.Mnem, vi), b})
+				perType++
 				if devs == 0 {
 					seeds = append(seeds, seed{fmt.Sprintf("%s/%d/ptr", s.Mnem, vi), wire.EncodeMsgPointers(m)})
 				}
